@@ -116,8 +116,11 @@ one_value(const struct cfg *c, uint64_t bits)
 static void
 bad_handles_and_types(const struct cfg *c, vh_rng *rg)
 {
+    /* incl. handles whose low 8/16 bits name a register of the table */
     const RegisterHandle bad[] = { 3, 4, 5, UINT32_MAX, UINT32_MAX - 1, 0x80000000u, 1000,
-                                   3 + (RegisterHandle)vh_below(rg, 100000) };
+                                   3 + (RegisterHandle)vh_below(rg, 100000), 0x100u, 0x101u, 0x102u, 0x10000u, 0x10001u,
+                                   0x10002u, 0x20001u, 0xffff0000u, 0xffff0001u, 0xffff0002u, 0x80000001u, 0x7fff0002u,
+                                   0x01000000u | (RegisterHandle)vh_below(rg, 3), (RegisterHandle)vh_below(rg, 3) | ((RegisterHandle)(1 + vh_below(rg, 0xffff)) << 16) };
     RegisterValue v = { .type = (RegisterType)c->type, .value = inst.d.reg[1].def };
     for (size_t i = 0; i < sizeof bad / sizeof bad[0]; i++)
         for (int unsafe = 0; unsafe < 2; unsafe++) {
